@@ -267,6 +267,23 @@ Definition leak_of_f (c : cfg) (st : astate) (nx : N) (fuse : option N) (o : op)
               end
           | None => []
           end
+      | OSplice a v sb eb [] FinDrop _ n _ _ =>
+          match get_a v st with
+          | Some av =>
+              let xs := a_xs av in
+              match range_of_bounds usize_max (N.of_nat (length xs)) (to_sb sb) (to_sb eb) with
+              | Some (s, e) =>
+                  let s := N.to_nat s in let e := N.to_nat e in
+                  let range := firstn (e - s) (skipn s xs) in
+                  let m := if c_dg c then N.of_nat (e - s) else 0 in
+                  if c_dg c && (k <? N.of_nat (e - s))
+                  then (match a with Erased => skipn (S (N.to_nat k)) range | Typed => [] end) ++ skipn e xs
+                  else if k - m <? n then firstn (N.to_nat (k - m)) (next_ids c nx (N.to_nat n)) ++ skipn e xs
+                  else []
+              | None => []
+              end
+          | None => []
+          end
       | OPop _ v KDrop => take_drop_leak c st v TPop 0 k
       | ORemove _ v idx KDrop => take_drop_leak c st v TRemove idx k
       | OSwapRemove _ v idx KDrop => take_drop_leak c st v TSwapRemove idx k
@@ -961,6 +978,53 @@ Proof.
         destruct a; perm_count.
       * pose proof (drain_own st nx v sb eb [] FinDrop r D L Hr Hinv) as H. cbn [leak_of] in H. exact H.
     + injection Hr as <-. cbn [panic_res s_nx s_st s_evs drops flat_map]. perm_count.
+  - (* OSplice *)
+    destruct pat; [|discriminate]. destruct f; [|discriminate].
+    unfold sp_splice_f in Hr.
+    destruct wrong_at; [destruct rk; discriminate|].
+    assert (Hr' : (if negb (claimed =? n) then None else
+                   match get_a v st with None => None | Some av => _ end) = Some r) by (destruct rk; try discriminate; exact Hr).
+    clear Hr. rename Hr' into Hr. destruct (negb (claimed =? n)); [discriminate|].
+    destruct (get_a v st) as [av|] eqn:Hg; [|discriminate]. cbv zeta in Hr.
+    set (xs := a_xs av) in *. set (ts := next_ids c nx (N.to_nat n)) in *.
+    assert (Hcr : created c (nx + n) = created c nx ++ ts).
+    { replace (nx + n) with (nx + N.of_nat (N.to_nat n)) by lia. apply created_add. exact Hnx. }
+    destruct (range_of_bounds usize_max (N.of_nat (length xs)) (to_sb sb) (to_sb eb)) as [[sN eN]|] eqn:Erb; [|discriminate].
+    assert (Hb : sN <= eN /\ eN <= N.of_nat (length xs)).
+    { unfold range_of_bounds in Erb.
+      repeat match type of Erb with
+      | context [match ?x with _ => _ end] => destruct x eqn:?; try discriminate
+      | context [if ?x then _ else _] => destruct x eqn:?; try discriminate
+      end.
+      injection Erb as <- <-. match goal with H : (_ && _)%bool = true |- _ => apply andb_prop in H; destruct H as [H1 H2] end.
+      apply N.leb_le in H1, H2. lia. }
+    cbv zeta. set (s := N.to_nat sN) in *. set (e := N.to_nat eN) in *.
+    assert (Hse : (s <= e)%nat) by lia. assert (Hel : (e <= length xs)%nat) by lia.
+    set (range := firstn (e - s) (skipn s xs)) in *.
+    set (m := if c_dg c then N.of_nat (e - s) else 0) in *.
+    assert (Hrg : Permutation range (firstn (S (N.to_nat k)) range ++ skipn (S (N.to_nat k)) range))
+      by (rewrite firstn_skipn; reflexivity).
+    set (fk := firstn (S (N.to_nat k)) range) in *. set (rk0 := skipn (S (N.to_nat k)) range) in *.
+    assert (Hts : Permutation ts (firstn (N.to_nat (k - m)) ts ++ skipn (N.to_nat (k - m)) ts))
+      by (rewrite firstn_skipn; reflexivity).
+    set (ft := firstn (N.to_nat (k - m)) ts) in *. set (st0 := skipn (N.to_nat (k - m)) ts) in *.
+    destruct ((usize_max <? N.of_nat s + n + N.of_nat (length xs - e))
+              || match acap c (a_bk av) with Some cap => cap <? N.of_nat s + n + N.of_nat (length xs - e) | None => false end); [discriminate|].
+    pose proof (vis_get_any st v) as Hv. rewrite Hg in Hv. cbn [slot_xs] in Hv. fold xs in Hv.
+    pose proof (vis_set_any st v (Some (with_xs av (firstn s xs)))) as H1. cbn [slot_xs with_xs a_xs] in H1.
+    assert (Hx : Permutation xs (firstn s xs ++ range ++ skipn e xs)).
+    { rewrite <- (firstn_skipn s xs) at 1. apply Permutation_app_head.
+      rewrite (skipn_split_range xs s e Hse) at 1. reflexivity. }
+    rewrite Hdg in *. cbn [andb] in *.
+    destruct (k <? N.of_nat (e - s)) eqn:Ek.
+    + injection Hr as <-. cbn [panic_res s_nx s_st s_evs]. rewrite Hcr. rewrite drops_app, !drops_map.
+      destruct a; perm_count.
+    + destruct (k - m <? n) eqn:Ef; injection Hr as <-; cbn [ok_res panic_res s_nx s_st s_evs]; rewrite Hcr.
+      * rewrite drops_app, drops_map. change (drops (ENext :: repeat ENext (N.to_nat (k - m)) ++ map EDrop st0)) with (drops (repeat ENext (N.to_nat (k - m)) ++ map EDrop st0)).
+        rewrite drops_app, drops_map, drops_nexts. perm_count.
+      * pose proof (vis_set_any st v (Some (with_xs av (VecSpec.sp_splice s e ts xs)))) as H2.
+        cbn [slot_xs with_xs a_xs] in H2. unfold VecSpec.sp_splice in *.
+        rewrite drops_app, drops_map, drops_nexts. perm_count.
 Qed.
 End StepOwn.
 
